@@ -60,7 +60,7 @@ EXPLANATION = ("Theorems: which_bin selects bin i exactly when the flip lies in 
                "orders; restricting a drawn order to a slate keeps the relative order, and (marginalisation identity, all "
                "sizes) the restricted order is distributed as successive sampling from the slate's own supports.")
 
-N_QUICK, N_THOROUGH = 2000, 24000
+N_QUICK, N_THOROUGH = 2000, 72000
 
 
 def cases(rng, tier, shard, nshards, phase):
